@@ -160,7 +160,13 @@ def catalogue_param_cases(rng, classes, tier, want_numeric=True):
                             lo, hi = T.ranges_for(c["name"]).get(n, T.DEFAULT_RANGE)
                             params[n] = gen_value(rng, "int", lo, hi)
                 exact = all(v[0] in ("int", "rat", "npint") for v in params.values())
-                case = dict(args, mode="full", cls=c["name"], params=params, kind="catalogue-params", entry="%s_%s" % (c["name"], label),
+                extra = {"want_dims": [ldim, pdim]}
+                if args and rng.random() < 0.6:     # the dimension given as a tuple / list / Tuple / Matrix of length 1
+                    extra["dim_as"] = rng.choice(["tuple", "list", "Tuple", "Matrix"])
+                if rng.random() < 0.35:             # user names for the physical coordinates
+                    extra["coordinates"] = rng.choice(COORD_NAMES)[:pdim]
+                    extra["coord_as"] = rng.choice(["list", "tuple", "Tuple", "symbols", "mixed"])
+                case = dict(args, **extra, mode="full", cls=c["name"], params=params, kind="catalogue-params", entry="%s_%s" % (c["name"], label),
                             param_kind=kind, seed=rng.randrange(1 << 30), nparams=1, npoints=3 if tier == "quick" else 6,
                             ranges=T.ranges_for(c["name"]),
                             want=(["entry", "oracle"] if exact else []) + (["numeric"] if want_numeric else []),
@@ -228,11 +234,328 @@ def gen_user(rng, idx, tier):
         for n in sorted(used):
             params[n] = gen_value(rng, kind, 0.5, 2.5)
     ranges = {n: (0.5, 2.5) for n in used}
-    return {"mode": "full", "kind": "user", "user": {"name": "User%d" % idx, "expressions": exprs, "ldim": ldim, "pdim": pdim},
+    extra = {"want_dims": [ldim, pdim]}
+    if rng.random() < 0.3:
+        extra["coordinates"] = rng.choice(COORD_NAMES)[:pdim]
+        extra["coord_as"] = rng.choice(["list", "tuple", "Tuple", "symbols", "mixed"])
+    return {**extra, "mode": "full", "kind": "user", "user": {"name": "User%d" % idx, "expressions": exprs, "ldim": ldim, "pdim": pdim},
             "params": params, "param_kind": kind, "style": style, "seed": rng.randrange(1 << 30), "nparams": 2, "npoints": 2,
             "ranges": ranges, "want": ["entry", "oracle"] + (["numeric"] if not (set(used) - set(params)) else []),
             "points": gen_points(rng, ldim, 2), "grids": gen_grids(rng, ldim, 1),
             "timeout": 90, "entry": "User%d" % idx}
+
+
+# ---- classes that supply their own Jacobian / inverse Jacobian (class attributes _jac, _inv_jac: string matrices)
+# structured terms  coef * prod(factors), factor = ("pow", var, n) | ("sin", var) | ("cos", var), so that the generator can
+# write the true Jacobian of its own expressions without any computer algebra
+LOGI = ["x1", "x2", "x3"]
+COORD_NAMES = [["u", "v", "w"], ["X", "Y", "Z"], ["r", "s", "t"], ["xp", "yp", "zp"]]
+
+
+def _factor_str(f):
+    if f[0] == "pow":
+        return f[1] if f[2] == 1 else "%s**%d" % (f[1], f[2])
+    return "%s(%s)" % (f[0], f[1])
+
+
+def term_str(t):
+    return "*".join(["(%s)" % t[0]] + [_factor_str(f) for f in t[1]])
+
+
+def terms_str(ts):
+    return " + ".join(term_str(t) for t in ts) if ts else "0"
+
+
+def term_diff(t, v):
+    c, fs = t
+    out = []
+    for k, f in enumerate(fs):
+        if f[1] != v:
+            continue
+        rest = fs[:k] + fs[k + 1:]
+        if f[0] == "pow":
+            n = f[2]
+            out.append((c if n == 1 else "%d*(%s)" % (n, c), rest + ([("pow", v, n - 1)] if n > 1 else [])))
+        elif f[0] == "sin":
+            out.append((c, rest + [("cos", v)]))
+        else:
+            out.append(("-(%s)" % c, rest + [("sin", v)]))
+    return out
+
+
+def jac_strings(exprs_terms, ldim):
+    return [[terms_str([d for t in ts for d in term_diff(t, LOGI[j])]) for j in range(ldim)] for ts in exprs_terms]
+
+
+def _minor(m, r, c):
+    return [[x for j, x in enumerate(row) if j != c] for i, row in enumerate(m) if i != r]
+
+
+def det_str(m):
+    n = len(m)
+    if n == 1:
+        return "(%s)" % m[0][0]
+    return "(" + " + ".join("%s(%s)*%s" % ("-" if j % 2 else "", m[0][j], det_str(_minor(m, 0, j))) for j in range(n)) + ")"
+
+
+def inv_strings(m):
+    """the inverse as strings: adjugate / determinant (cofactor expansion), nothing simplified"""
+    n = len(m)
+    if n == 1:
+        return [["1/(%s)" % m[0][0]]]
+    d = det_str(m)
+    return [["%s%s/%s" % ("-" if (i + j) % 2 else "", det_str(_minor(m, j, i)) if n > 1 else "1", d) for j in range(n)] for i in range(n)]
+
+
+def gen_supplied_terms(rng, ldim, pdim, fam, symbolic, tri, used):
+    xs = LOGI[:ldim]
+    out = []
+    for i in range(pdim):
+        lead = xs[i % ldim]
+        allowed = xs[:(i % ldim) + 1] if tri else xs
+        if symbolic and rng.random() < 0.6:
+            nm = rng.choice(["p", "q"])
+            used.add(nm)
+            coef = nm if rng.random() < 0.7 else "1+%s" % nm
+        else:
+            coef = str(rng.choice([2, 3, 4]))
+        ts = [(coef, [("pow", lead, 1)])]
+        if fam in ("poly", "mixed"):
+            for _ in range(rng.randint(1, 2)):
+                a = rng.choice(allowed)
+                b = rng.choice(allowed)
+                mono = rng.choice([[("pow", a, 1)], [("pow", a, 2)]] + ([[("pow", a, 1), ("pow", b, 1)]] if a != b else []))
+                if mono == [("pow", lead, 1)]:
+                    mono = [("pow", lead, 2)]
+                ts.append(("%s%d/%d" % (rng.choice(["", "-"]), rng.choice([1, 2, 3]), rng.choice([2, 3, 5, 7])), mono))
+        if fam in ("trig", "mixed"):
+            amp = rng.choice(["1/4", "1/3", "1/5"])
+            if symbolic and rng.random() < 0.4:
+                amp = rng.choice(["p", "q"])
+                used.add(amp)
+            a = rng.choice(allowed)
+            fs = [(rng.choice(["sin", "cos"]), a)]
+            others = [v for v in allowed if v != a]
+            if others and rng.random() < 0.35:
+                fs.append((rng.choice(["sin", "cos"]), rng.choice(others)))
+            ts.append((amp, fs))
+        if rng.random() < 0.5:
+            if symbolic:
+                used.add("c%d" % (i + 1))
+                ts.append(("c%d" % (i + 1), []))
+            else:
+                ts.append((str(rng.randint(1, 4)), []))
+        out.append(ts)
+    return out
+
+
+def physical_template(rng, names, symbolic, used):
+    """classes whose Jacobian is written with the PHYSICAL coordinates (names X, Y, Z = the coordinate names of the
+    instance): Mapping.__new__ replaces them by the coordinate expressions"""
+    X, Y, Z = names
+    a = str(rng.choice([2, 3, 4]))
+    c = str(rng.choice([1, 2]))
+    if symbolic:
+        a, c = rng.choice(["p", "q"]), "c1"
+        used.update([a, c])
+    b = str(rng.choice([1, 2, 3]))
+    k = rng.choice(["P1", "P1", "P2", "P3", "P4", "P5", "P6"])
+    x1 = "((%s - %s)/%s)" % (X, c, a)
+    if k == "P1":
+        return k, 2, 2, {"x": "%s*x1 + %s" % (a, c), "y": "x1*x2 + %s*x2" % b}, \
+            [[a, "0"], ["%s/(%s + %s)" % (Y, x1, b), "%s + %s" % (x1, b)]]
+    if k == "P2":
+        return k, 1, 1, {"x": "%s*x1**2 + %s" % (a, c)}, [["2*(%s - %s)/x1" % (X, c)]]
+    if k == "P3":
+        x1 = "(%s/%s)" % (X, a)
+        x2 = "(%s/(%s + 1))" % (Y, x1)
+        return k, 3, 3, {"x": "%s*x1" % a, "y": "x2*(x1 + 1)", "z": "x3 + x1*x2 + %s" % c}, \
+            [[a, "0", "0"], [x2, "%s + 1" % x1, "0"], [x2, x1, "1"]]
+    if k == "P4":
+        return k, 2, 3, {"x": "%s*x1" % a, "y": "x2 + %s" % c, "z": "x1*x2"}, [[a, "0"], ["0", "1"], ["%s - %s" % (Y, c), "%s/%s" % (X, a)]]
+    if k == "P5":
+        return k, 2, 2, {"x": "%s + %s*x1*cos(x2)" % (c, a), "y": "%s*x1*sin(x2)" % a}, \
+            [["%s*cos(x2)" % a, "-%s" % Y], ["%s*sin(x2)" % a, "%s - %s" % (X, c)]]
+    return k, 1, 2, {"x": "%s*x1" % a, "y": "x1**2 + %s" % c}, [[a], ["2*%s/%s" % (X, a)]]
+
+
+def gen_supplied(rng, idx, tier):
+    """A user class that supplies _jac and / or _inv_jac: the TRUE matrices of its expressions (consistent), or with one
+    planted entry (inconsistent: what does the object expose then?)."""
+    fam = rng.choice(["poly", "poly", "trig", "mixed", "physical", "physical"])
+    symbolic = rng.random() < 0.55
+    used = set()
+    coords = None
+    if fam == "physical" or rng.random() < 0.3:
+        coords = rng.choice(COORD_NAMES + ([["x", "y", "z"]] if fam == "physical" else []))
+    if fam == "physical":
+        tmpl, ldim, pdim, exprs, J = physical_template(rng, coords, symbolic, used)
+        if coords == ["x", "y", "z"]:
+            coords_arg = None
+        else:
+            coords_arg = coords[:pdim]
+    else:
+        ldim, pdim = rng.choice([(1, 1), (2, 2), (2, 2), (2, 2), (3, 3), (1, 2), (2, 3), (1, 3)])
+        tri = ldim == 3 or rng.random() < 0.3
+        tts = gen_supplied_terms(rng, ldim, pdim, fam, symbolic, tri, used)
+        exprs = {k: terms_str(ts) for k, ts in zip(T.COORDS, tts)}
+        J = jac_strings(tts, ldim)
+        tmpl = "tri" if tri else "full"
+        coords_arg = coords[:pdim] if coords else None
+    square = ldim == pdim
+    mode = rng.choice(["jac", "jac", "inv", "both"]) if square else "jac"
+    planted = None
+    if rng.random() < 0.3:
+        planted = "jac" if mode != "both" else rng.choice(["jac", "inv"])
+    Jt = [list(r) for r in J]
+    Jp = [list(r) for r in J]
+    if planted:
+        Jp[0][0] = "(%s) + 1" % Jp[0][0]
+    user = {"name": "Sup%d" % idx, "expressions": exprs, "ldim": ldim, "pdim": pdim}
+    if mode == "jac":
+        user["jac"] = Jp
+    elif mode == "inv":
+        user["inv_jac"] = inv_strings(Jp)
+    else:
+        user["jac"] = Jp if planted == "jac" else Jt
+        user["inv_jac"] = inv_strings(Jp if planted == "inv" else Jt)
+    dims_by = "class"
+    if rng.random() < 0.35:            # dimensions given to the constructor instead of class attributes, possibly wrapped
+        dims_by = "dim" if square and rng.random() < 0.6 else "ldim_pdim"
+        user["ldim"] = user["pdim"] = None
+    params, kind = {}, "symbolic"
+    if used and rng.random() < 0.5:
+        kind = rng.choice(["int", "rat"])
+        for n in sorted(used):
+            params[n] = gen_value(rng, kind, 0.5, 2.5)
+    case = {"mode": "full", "kind": "supplied", "user": user, "params": params, "param_kind": kind, "style": fam, "template": tmpl,
+            "supplied": mode, "planted": planted, "base": "stored", "want_dims": [ldim, pdim],
+            "seed": rng.randrange(1 << 30), "nparams": 2, "npoints": 2, "ranges": {n: (0.5, 2.5) for n in used},
+            "want": ["entry", "oracle", "copy"] + (["numeric"] if not (set(used) - set(params)) and not planted else []),
+            "points": gen_points(rng, ldim, 2), "grids": gen_grids(rng, ldim, 1), "timeout": 120, "entry": "Sup%d" % idx}
+    if dims_by == "dim":
+        case["dim"] = ldim
+    elif dims_by == "ldim_pdim":
+        case["ldim"], case["pdim"] = ldim, pdim
+    if dims_by != "class":
+        case["dim_as"] = rng.choice(["int", "tuple", "list", "Tuple", "Matrix"])
+    if coords_arg:
+        case["coordinates"] = coords_arg
+        case["coord_as"] = rng.choice(["list", "tuple", "Tuple", "symbols", "mixed"])
+    return case
+
+
+def gen_abstract_cases(rng, tier):
+    """Mapping objects WITHOUT analytical expressions: the stored Jacobian is the matrix of the atoms d M[i]/d x_j."""
+    cases = []
+    for (l, p) in [(1, 1), (2, 2), (3, 3), (1, 2), (2, 3), (1, 3)]:
+        c = {"mode": "full", "kind": "abstract", "cls": "Mapping", "mname": rng.choice(["M", "F", "Phi"]), "params": {}, "param_kind": "none",
+             "want_dims": [l, p], "want": ["entry", "oracle", "copy"], "seed": rng.randrange(1 << 30), "timeout": 120,
+             "entry": "Mapping_%d_%d" % (l, p)}
+        if l == p and rng.random() < 0.7:
+            c["dim"] = l
+        else:
+            c["ldim"], c["pdim"] = l, p
+        c["dim_as"] = rng.choice(["int", "tuple", "list", "Tuple", "Matrix"])
+        if rng.random() < 0.5:
+            c["coordinates"] = rng.choice(COORD_NAMES)[:p]
+            c["coord_as"] = rng.choice(["list", "tuple", "Tuple", "symbols", "mixed"])
+        cases.append(c)
+    return cases
+
+
+def ctor_expected(c):
+    """The constructor's refusals, arm by arm (Mapping.__new__): dimension wrappers first, then the assertions on the
+    dimensions, then evaluate=False (bare object, nothing else is looked at), then the coordinates."""
+    raw = c.get("raw") or {}
+    dims = {}
+    for k in ("dim", "ldim", "pdim"):
+        v = raw.get(k, c.get(k))
+        if isinstance(v, list):
+            if len(v) != 1:
+                return "ValueError"
+            v = v[0]
+        dims[k] = v
+    if dims["dim"] is None:
+        cl, cp = c.get("class_dims", [None, None])
+        l = dims["ldim"] if dims["ldim"] is not None else cl
+        p = dims["pdim"] if dims["pdim"] is not None else cp
+        if l is None or p is None or p < l:
+            return "AssertionError"
+    if c.get("evaluate") is False:
+        return "unevaluated"
+    if "coordinates" in raw:
+        v = raw["coordinates"]
+        if not isinstance(v, list):
+            return "TypeError"
+        if any(not isinstance(a, str) for a in v):
+            return "TypeError"
+    return "ok"
+
+
+def ctor_dims(c):
+    raw = c.get("raw") or {}
+    d = {}
+    for k in ("dim", "ldim", "pdim"):
+        v = raw.get(k, c.get(k))
+        d[k] = v[0] if isinstance(v, list) and len(v) == 1 else v
+    if d["dim"] is not None:
+        return [d["dim"], d["dim"]]
+    cl, cp = c.get("class_dims", [None, None])
+    l, p = d["ldim"] if d["ldim"] is not None else cl, d["pdim"] if d["pdim"] is not None else cp
+    return [l, p] if l is not None and p is not None else None
+
+
+def gen_ctor_cases(rng):
+    base = [
+        {"cls": "Mapping", "raw": {"dim": [2, 3]}, "raw_tuple": True},
+        {"cls": "Mapping", "raw": {"dim": [2, 3]}},
+        {"cls": "Mapping", "raw": {"dim": []}},
+        {"cls": "Mapping", "raw": {"ldim": [1, 2], "pdim": 2}},
+        {"cls": "Mapping", "raw": {"ldim": 1, "pdim": [2, 2, 2]}, "raw_tuple": True},
+        {"cls": "Mapping", "raw": {"dim": [3]}},
+        {"cls": "Mapping", "raw": {"ldim": [2], "pdim": [3]}, "raw_tuple": True},
+        {"cls": "Mapping", "raw": {}},
+        {"cls": "Mapping", "raw": {"ldim": 2}},
+        {"cls": "Mapping", "raw": {"ldim": 3, "pdim": 2}},
+        {"cls": "Mapping", "dim": 2, "raw": {"coordinates": "uv"}},
+        {"cls": "Mapping", "dim": 2, "raw": {"coordinates": [1, 2]}},
+        {"cls": "Mapping", "dim": 2, "raw": {"coordinates": ["u", 2]}},
+        {"cls": "Mapping", "dim": 2, "raw": {"coordinates": ["u", "v"]}},
+        {"cls": "Mapping", "raw": {"dim": [2, 3], "coordinates": "uv"}},
+        {"cls": "Mapping", "dim": 2, "coordinates": ["u", "v"], "coord_as": "symbols"},
+        {"cls": "Mapping", "ldim": 1, "pdim": 3, "coordinates": ["r", "s", "t"], "coord_as": "Tuple"},
+        {"cls": "Mapping", "dim": 1, "coordinates": ["r"], "coord_as": "mixed"},
+        {"cls": "PolarMapping", "coordinates": ["X", "Y"], "coord_as": "tuple", "class_dims": [2, 2]},
+        {"cls": "Mapping", "dim": 2, "evaluate": False},
+        {"cls": "Mapping", "dim": 2, "evaluate": False, "raw": {"coordinates": "uv"}},
+        {"cls": "PolarMapping", "evaluate": False, "class_dims": [2, 2]},
+        {"cls": "PolarMapping", "raw": {"coordinates": 7}, "class_dims": [2, 2]},
+        {"cls": "IdentityMapping", "raw": {"dim": [2, 2]}},
+        {"cls": "IdentityMapping", "raw": {"dim": [2]}},
+        {"cls": "AffineMapping", "raw": {"ldim": 3, "pdim": 2}},
+    ]
+    return [dict(c, mode="ctor", kind="ctor", timeout=60) for c in base]
+
+
+def gen_kwargs_probes(rng, classes, tier):
+    """CallableMapping(mapping, **params) on mappings whose parameters were left symbolic: values of all quantities and the
+    symbolic information (params / ldim / pdim / symbolic_mapping)."""
+    out = []
+    for c in classes:
+        if c["name"] == "CzarnyMapping" and tier == "quick":
+            continue
+        label, args = rng.choice(T.admissible(c))
+        ldim, pdim = [int(v) for v in label.split("_")]
+        sub = {k: v for k, v in c["expressions"].items() if k in T.COORDS[:pdim]}
+        names = [n for n in consts_of(sub) if not re.fullmatch(r"a\d\d", n) or int(n[2]) <= ldim]
+        if not names:
+            continue
+        params = gen_params(rng, c["name"], names, rng.choice(["int", "rat", "float", "mixed"]))
+        out.append(dict(args, mode="probe", kind="callable-kwargs", cls=c["name"], params=params, want_dims=[ldim, pdim],
+                        point=gen_points(rng, ldim, 1)[0], grids=gen_grids(rng, ldim, 1), entry="%s_%s" % (c["name"], label),
+                        timeout=300))
+    return out
 
 
 def gen_shape_list(rng, n, compat=True):
@@ -351,6 +674,10 @@ def coq_entry_term(name, d):
         T.coq_mat(d["metric"]), X.coq_sx(d["mdet"]))
 
 
+def coq_omat(m):
+    return "None" if m is None else "(Some %s)" % T.coq_mat(m)
+
+
 def entry_nontrivial(d):
     ops = {}
     for x in d["expr"]:
@@ -427,14 +754,18 @@ def main(run, replay=None):
         user_cases = [gen_user(rng, i, run.tier) for i in range(24 if quick else 160)]
         shape_cases = gen_shape_cases(rng, 260 if quick else 2500)
         cshape_cases = gen_callable_shape_cases(rng, classes, run.tier)
-        probe_cases = [{"mode": "probe", "kind": "callable-kwargs", "cls": "PolarMapping",
+        probe_cases = [{"mode": "probe", "kind": "callable-kwargs", "cls": "PolarMapping", "want_dims": [2, 2], "entry": "PolarMapping_2_2",
                         "params": {"c1": ["float", "0.5"], "c2": ["float", "-0.25"], "rmin": ["float", "0.25"], "rmax": ["float", "1.5"]},
                         "point": [0.5, 0.75]},
-                       {"mode": "probe", "kind": "callable-kwargs", "cls": "AffineMapping", "dim": 1,
+                       {"mode": "probe", "kind": "callable-kwargs", "cls": "AffineMapping", "dim": 1, "want_dims": [1, 1], "entry": "AffineMapping_1_1",
                         "params": {"c1": ["int", 1], "a11": ["int", 3]}, "point": [0.5]}]
+        probe_cases += gen_kwargs_probes(rng, classes, run.tier)
+        supplied_cases = [gen_supplied(rng, i, run.tier) for i in range(36 if quick else 240)]
+        abstract_cases = gen_abstract_cases(rng, run.tier)
+        ctor_cases = gen_ctor_cases(rng)
         corpus_f = vlib.VERIF / "corpus" / "C16.json"
         corpus = json.load(open(corpus_f)) if corpus_f.exists() else []
-        all_cases = corpus + param_cases + user_cases + shape_cases + cshape_cases + probe_cases
+        all_cases = corpus + param_cases + user_cases + supplied_cases + abstract_cases + ctor_cases + shape_cases + cshape_cases + probe_cases
     box = {}
     import time
     t_start = time.time()
@@ -469,7 +800,11 @@ def main(run, replay=None):
              "param_cases": 0, "param_cases_proved": 0, "user_cases": 0, "user_cases_proved": 0, "checker_incomplete": 0,
              "oracle_points": 0, "oracle_refused_points": 0, "unsupported_node": 0, "timeouts": 0, "degenerate_user_mappings": 0,
              "shape_numpy": 0, "shape_lambdify": 0, "shape_callable_runs": 0, "shape_model_agree": 0, "shape_refusals": 0,
-             "oracle_unavailable_but_proved": 0, "numeric_cases": 0, "numeric_points": 0, "numeric_values_compared": 0, "float_param_cases": 0}
+             "oracle_unavailable_but_proved": 0, "numeric_cases": 0, "numeric_points": 0, "numeric_values_compared": 0, "float_param_cases": 0,
+             "supplied_cases": 0, "supplied_cases_proved": 0, "supplied_inconsistent": 0, "supplied_inconsistent_kept_proved": 0,
+             "supplied_inconsistent_kept_oracle": 0, "abstract_cases": 0, "abstract_cases_proved": 0, "ctor_cases": 0, "ctor_agree": 0,
+             "meta_checked": 0, "dim_wrapped_cases": 0, "custom_coordinate_cases": 0, "copies_checked": 0,
+             "callable_props_checked": 0, "kwargs_probes": 0, "kwargs_probe_values": 0}
     incomplete_list, skipped = [], list(info["skipped"])
 
     # ---------------- (A1) the generated catalogue: per entry / per part, inside Coq
@@ -481,8 +816,16 @@ def main(run, replay=None):
     for ci, (c, r) in enumerate(zip(all_cases, results)):
         if c.get("mode") != "full" or r is None or "entry" not in r or "err" in r.get("entry", {}):
             continue
-        entry_terms.append("check_parts %s" % coq_entry_term(c["entry"], r["entry"]))
-        owners.append(ci)
+        if c.get("kind") == "supplied":
+            if "given_err" in r["entry"]:
+                continue
+            # the arm of Mapping.__new__ taken by this class, with the supplied matrices in the runner's own reading
+            entry_terms.append("check_supplied_parts (mk_sup %s %s) %s" % (
+                coq_omat(r["entry"].get("given_jac")), coq_omat(r["entry"].get("given_inv")), coq_entry_term(c["entry"], r["entry"])))
+            owners.append((ci, 6))
+        else:
+            entry_terms.append("check_parts %s" % coq_entry_term(c["entry"], r["entry"]))
+            owners.append((ci, 5))
     per = 6
     eindex = []
     for k in range(0, len(entry_terms), per):
@@ -616,18 +959,106 @@ def main(run, replay=None):
     # ---------------- decide (A2), (C)
     eparts = {}
     for name, own in eindex:
-        v = vals_of(name, 5 * len(own))
+        v = vals_of(name, sum(w for _, w in own))
         if v is None:
             continue
-        for k, ci in enumerate(own):
-            eparts[ci] = v[5 * k:5 * k + 5]
+        pos = 0
+        for ci, w in own:
+            eparts[ci] = v[pos:pos + w]
+            pos += w
+    def frac_of(pv):
+        import fractions
+        if pv[0] in ("int", "npint"):
+            return str(fractions.Fraction(int(pv[1])))
+        if pv[0] == "rat":
+            return str(fractions.Fraction(int(pv[1]), int(pv[2])))
+        return str(fractions.Fraction(float(pv[1])))
+
+    def check_props(c, props, case, want_params):
+        """the symbolic information of the callable mapping: ldim / pdim / params / symbolic_mapping"""
+        if props is None or "want_dims" not in c:
+            return
+        stats["callable_props_checked"] += 1
+        l, p = c["want_dims"]
+        bad = None
+        if [props["ldim"], props["pdim"]] != [l, p] or props["symbolic_dims"] != [l, p]:
+            bad = ("ldim/pdim", [props["ldim"], props["pdim"]], [l, p])
+        elif props["params"] != want_params:
+            bad = ("params", props["params"], want_params)
+        elif not props["symbolic_is_mapping"]:
+            bad = ("symbolic_mapping", "another object", "the mapping it was built from")
+        elif props.get("cached") is False:
+            bad = ("get_callable_mapping", "a new callable on the second call", "the cached one")
+        if bad:
+            report({"part": "callable-props", "quantity": bad[0]},
+                   "C16 fails on the implementation: the callable mapping of %s exposes %s = %s, required %s" % (c["entry"], bad[0], bad[1], bad[2]),
+                   case, observed=props, required="ldim, pdim of the symbolic mapping; params = the parameter values bound at construction of the "
+                   "callable (name -> value); symbolic_mapping = the Mapping object", theorem_or_case="oracle:callable properties")
+
     numeric_hist = {}
     distinct = set()
+    TAGS = {"user": "user", "supplied": "user-supplied", "abstract": "abstract", "catalogue-params": "param"}
+    supplied_hist = {}
+
+    def check_meta(c, r, case, tag):
+        """what the object exposes besides the five quantities; returns True when the root cause of everything else was reported"""
+        m = r.get("meta")
+        if not m or "want_dims" not in c:
+            return False
+        stats["meta_checked"] += 1
+        stats["dim_wrapped_cases"] += 1 if c.get("dim_as") not in (None, "int") else 0
+        stats["custom_coordinate_cases"] += 1 if c.get("coordinates") else 0
+        l, p = c["want_dims"]
+        cls = c.get("cls", "user")
+        if [m["ldim"], m["pdim"]] != [l, p]:
+            report({"part": "ctor", "kind": "dimension", "dim_as": c.get("dim_as", "int")},
+                   "C16 fails on the implementation: %s built with dimensions %s (given as %s) has ldim, pdim = %s" % (
+                       c["entry"], [l, p], c.get("dim_as", "int"), [m["ldim"], m["pdim"]]), case, observed=m,
+                   required="ldim, pdim = %s" % [l, p], theorem_or_case="oracle:constructor (dimension of length-1 tuple/list/Tuple = the number)")
+            return True
+        names = c.get("coordinates") or T.COORDS[:p]
+        if m["coordinates"] != list(names) or not all(m["coordinates_real"]) or m["coordinates_seq"] != (p > 1):
+            report({"part": "ctor", "kind": "coordinates", "custom": bool(c.get("coordinates"))},
+                   "C16 fails on the implementation: the physical coordinates of %s are %s (real: %s, sequence: %s), required the real symbols %s" % (
+                       c["entry"], m["coordinates"], m["coordinates_real"], m["coordinates_seq"], list(names)), case, observed=m,
+                   required="real Symbols named %s (%s)" % (list(names), "a tuple" if p > 1 else "the symbol itself"),
+                   theorem_or_case="oracle:constructor (coordinates=)")
+        if m["logical"] != LOGI[:l] or not all(m["logical_real"]) or m["name"] != c.get("mname", "M"):
+            report({"part": "ctor", "kind": "logical-coordinates-or-name"}, "C16: %s exposes logical coordinates %s / name %s" % (
+                c["entry"], m["logical"], m["name"]), case, observed=m, required="x1.. real, name as given", theorem_or_case="oracle:constructor")
+        if "copy_same" in r:
+            stats["copies_checked"] += 1
+            if not r["copy_same"]:
+                report({"part": "ctor", "kind": "copy"}, "C16 fails on the implementation: the copy() of %s (built through evaluate=False) does not expose "
+                       "the same expressions / Jacobian / inverse / metric / determinant" % c["entry"], case, observed=m,
+                       required="identical stored quantities", theorem_or_case="oracle:constructor (evaluate=False + copy)")
+        if m.get("stray_symbols"):
+            if c["kind"] == "supplied":
+                report({"part": "user-supplied", "kind": "supplied-matrix-not-read-like-expressions"},
+                       "C16 fails on the implementation: the Jacobian / inverse supplied by class %s (%s) is not read like its coordinate "
+                       "expressions: the stored quantities contain the symbols %s, which are neither the mapping's logical coordinates nor "
+                       "the parameter objects / values of its expressions" % (c["entry"], c["supplied"], m["stray_symbols"]),
+                       case, observed={"stray_symbols": m["stray_symbols"], "oracle": (r.get("oracle") or {}).get("fails", [])[:1],
+                                       "numeric": {k: v for k, v in (r.get("numeric") or {}).items() if k in ("err", "msg")}},
+                       required="stored Jacobian = derivative of the coordinate expressions, as expressions of the mapping's logical coordinates "
+                                "and parameters; the callable mapping evaluates them",
+                       theorem_or_case="oracle:user-supplied (symbols of the stored quantities); C16_supplied_sound")
+            else:
+                report({"part": tag, "kind": "stray-symbols", "cls": cls}, "C16: the stored quantities of %s contain foreign symbols %s" % (
+                    c["entry"], m["stray_symbols"]), case, observed=m, required="only logical coordinates and parameters",
+                    theorem_or_case="oracle:%s" % tag)
+            return True
+        return False
+
+    def kinds_of(orc):
+        return sorted({b[0] for f in (orc or {}).get("fails", []) for b in f["bad"]})
+
     for ci, (c, r) in enumerate(zip(all_cases, results)):
         if c.get("mode") != "full":
             continue
-        is_user = c["kind"] == "user"
-        tag = "user" if is_user else "param"
+        is_user = c["kind"] in ("user", "supplied")
+        tag = TAGS.get(c["kind"], "param")
+        counter = {"user": "user_cases", "user-supplied": "supplied_cases", "abstract": "abstract_cases", "param": "param_cases"}[tag]
         case = {"part": tag, "entry": c["entry"], "payload": c}
         if r is None or r.get("runner"):
             report({"kind": "runner-crash"}, "implementation runner crashed", {"log": (r or {}).get("crash", "")[-1500:]},
@@ -641,12 +1072,21 @@ def main(run, replay=None):
             if is_user and ("NonInvertible" in r["crash"] or "ZeroDivision" in r["crash"]):
                 stats["degenerate_user_mappings"] += 1
                 continue
+            if c.get("coord_as") in ("symbols", "mixed", "Tuple") and r.get("errkind") == "TypeError":
+                report({"part": "ctor", "kind": "coordinates-given-as-symbols"},
+                       "C16 fails on the implementation: %s cannot be built with coordinates= given as Symbol objects (%s), which the "
+                       "constructor's own type check admits: %s" % (c["entry"], c["coordinates"], r["crash"].strip().splitlines()[-1][:160]),
+                       case, observed=r["crash"][-800:], required="the mapping with real coordinate symbols of these names",
+                       theorem_or_case="oracle:constructor (coordinates= : str or Symbol)")
+                continue
             report({"part": tag, "kind": "exception", "cls": c.get("cls", "user"), "err": r.get("errkind")},
                    "building / evaluating %s raised %s" % (c["entry"], r["crash"].strip().splitlines()[-1][:200]), case,
                    observed=r["crash"][-800:], required="a mapping object with coherent stored quantities",
                    theorem_or_case="oracle:%s" % tag)
             continue
-        stats["user_cases" if is_user else "param_cases"] += 1
+        stats[counter] += 1
+        if check_meta(c, r, case, tag):
+            continue
         ent = r.get("entry")
         orc = r.get("oracle") or {}
         stats["oracle_points"] += orc.get("tried", 0)
@@ -654,7 +1094,67 @@ def main(run, replay=None):
         if ent is not None and "err" in ent:
             stats["unsupported_node"] += 1
             skipped.append("%s (%s parameters): symbolic check not applicable, %s" % (c["entry"], c.get("param_kind"), ent.get("msg", "")[:80]))
-        if orc.get("fails"):
+        proved_key = {"user": "user_cases_proved", "user-supplied": "supplied_cases_proved", "abstract": "abstract_cases_proved",
+                      "param": "param_cases_proved"}[tag]
+        if c["kind"] == "supplied":
+            # [plan/shape; stored = supplied; J Jinv = I; metric; det; J = d expr]: what the arm guarantees / what a consistent class adds
+            mode, planted = c["supplied"], c.get("planted")
+            key = "%s/%s" % (mode, "planted-" + planted if planted else "consistent")
+            supplied_hist[key] = supplied_hist.get(key, 0) + 1
+            inner = r.get("internal") or {}
+            stats["oracle_points"] += inner.get("tried", 0)
+            want_parts = [True, True, not (mode == "both" and planted), True, True, not planted or (mode == "both" and planted == "inv")]
+            kin, kref = kinds_of(inner), kinds_of(orc)
+            allowed_in = ["jinv"] if (mode == "both" and planted) else []
+            broken = [k for k in kin if k not in allowed_in and not k.startswith("given-")]
+            replaced = [k for k in kin if k.startswith("given-")]
+            if "err" in orc or "err" in inner:
+                report({"part": tag, "kind": "oracle-error"}, "the oracle could not be evaluated on %s" % c["entry"], case,
+                       observed={"oracle": orc, "internal": inner}, found_input=False, theorem_or_case="oracle:user-supplied")
+                continue
+            if planted:
+                stats["supplied_inconsistent"] += 1
+            if broken or (not planted and kref):
+                f = (inner.get("fails") or orc.get("fails"))[0]
+                q = (broken or kref)[0]
+                report({"part": tag, "supplied": mode, "consistent": not planted, "quantity": q},
+                       "C16 fails on the implementation: class %s supplies %s (%s); the stored %s of the object is not coherent with %s" % (
+                           c["entry"], {"jac": "_jac", "inv": "_inv_jac", "both": "_jac and _inv_jac"}[mode],
+                           "consistent with its expressions" if not planted else "one entry changed: inconsistent class",
+                           q, "the coordinate expressions" if not planted else "the stored Jacobian (a second inconsistency)"),
+                       dict(case, params=f["params"], point=f["point"]), observed={"against_expressions": kref, "internal": kin, "bad": f["bad"]},
+                       required="consistent class: J = d(expressions), J*Jinv = I, metric = J^T J, det; inconsistent class: the supplied matrix "
+                                "is exposed unchanged, the derived inverse / metric / determinant are those of the STORED Jacobian",
+                       theorem_or_case="oracle:user-supplied; C16_supplied_sound / C16_supplied_inconsistent_kept")
+                continue
+            if replaced:
+                report({"part": tag, "kind": "stored-differs-from-supplied", "supplied": mode},
+                       "the object built from class %s does not expose the matrix the class supplied (%s), but its quantities are coherent among "
+                       "themselves: the model of the arm (stored = supplied) disagrees with the implementation" % (c["entry"], replaced),
+                       case, observed=inner.get("fails", [])[:1], found_input=False,
+                       theorem_or_case="correspondence CatalogueM.chk_supplied vs Mapping.__new__ (arms _jac / _inv_jac)")
+                continue
+            if planted and ((planted == "jac" or mode != "both") and "jac" not in kref or (mode == "both" and "jinv" not in kref)):
+                report({"part": tag, "kind": "planted-inconsistency-not-visible", "supplied": mode},
+                       "the inconsistent matrix supplied by %s is not visible in what the object exposes" % c["entry"], case,
+                       observed={"against_expressions": kref}, found_input=False, theorem_or_case="oracle:user-supplied (generator)")
+                continue
+            if planted:
+                stats["supplied_inconsistent_kept_oracle"] += 1
+            if ci in eparts:
+                got = eparts[ci]
+                need = [g for g, w in zip(got, want_parts) if w]
+                if all(need):
+                    stats[proved_key] += 1
+                    if planted and not got[5]:
+                        stats["supplied_inconsistent_kept_proved"] += 1
+                else:
+                    stats["checker_incomplete"] += 1
+                    incomplete_list.append({"entry": c["entry"], "param_kind": c.get("param_kind"), "parts": got, "expected": want_parts,
+                                            "supplied": key, "expressions": c["user"]["expressions"]})
+                if ent and entry_nontrivial(ent):
+                    distinct.add(canon_hash(["sup", mode, planted, ent["expr"], ent["mdet"]]))
+        elif orc.get("fails"):
             f = orc["fails"][0]
             report({"part": tag, "cls": c.get("cls", "user"), "quantity": f["bad"][0][0]},
                    "C16 fails on the implementation: the stored %s of %s is not coherent" % (f["bad"][0][0], c["entry"]),
@@ -663,13 +1163,17 @@ def main(run, replay=None):
                    theorem_or_case="oracle:%s" % tag)
         elif "err" in orc and ci in eparts and all(eparts[ci]):
             stats["oracle_unavailable_but_proved"] += 1
-            stats["user_cases_proved" if is_user else "param_cases_proved"] += 1
+            stats[proved_key] += 1
         elif "err" in orc:
             report({"part": tag, "kind": "oracle-error", "cls": c.get("cls", "user")}, "the coherence of %s is not proved and the oracle could not be evaluated" % c["entry"],
                    case, observed=orc, found_input=False, theorem_or_case="oracle:%s" % tag)
         elif ci in eparts:
             if all(eparts[ci]):
-                stats["user_cases_proved" if is_user else "param_cases_proved"] += 1
+                stats[proved_key] += 1
+            elif tag == "abstract":
+                report({"part": tag, "kind": "not-proved"}, "the coherence of the stored quantities of the mapping without expressions %s is not proved "
+                       "(a field identity over the atoms d M[i]/d x_j) although the exact oracle found nothing" % c["entry"], case,
+                       observed={"parts": eparts[ci]}, found_input=False, theorem_or_case="check_parts (abstract mapping)")
             else:
                 stats["checker_incomplete"] += 1
                 incomplete_list.append({"entry": c["entry"], "param_kind": c.get("param_kind"), "parts": eparts[ci],
@@ -685,6 +1189,7 @@ def main(run, replay=None):
                        observed=num["msg"][-800:], required="values of the mapping, Jacobian, inverse, metric, determinant",
                        theorem_or_case="sampling:numeric")
                 continue
+            check_props(c, num.get("props"), case, {})
             stats["numeric_cases"] += 1
             stats["float_param_cases"] += 1 if fl else 0
             stats["numeric_points"] += num["points"]
@@ -835,11 +1340,66 @@ def main(run, replay=None):
         if c.get("mode") != "probe":
             continue
         if r is None or "crash" in r or r.get("ok") is False:
-            report({"part": "numeric", "call": "CallableMapping(mapping, **params)", "kind": "params-not-bound"},
+            surface = bool(c.get("want_dims")) and c["want_dims"][0] < c["want_dims"][1]
+            report({"part": "numeric", "call": "CallableMapping(mapping, **params)", "kind": "params-not-bound", "surface_or_curve": surface},
                    "C16 fails on the implementation: CallableMapping(mapping, **params) on a mapping whose parameters were left symbolic does not "
                    "bind the parameters (%s)" % ((r or {}).get("what") or (r or {}).get("crash", "").strip().splitlines()[-1][:160]),
                    {"part": "probe", "payload": c}, observed=r, required="the values of the mapping with the given parameters",
                    theorem_or_case="sampling:numeric (parameter substitution of CallableMapping)")
+        elif c.get("kind") == "callable-kwargs" and "want_dims" in c:
+            stats["kwargs_probes"] += 1
+            num = r.get("numeric") or {}
+            case = {"part": "probe", "payload": c}
+            if "err" in num:
+                report({"part": "numeric", "call": "CallableMapping(mapping, **params)", "kind": "exception", "err": num["err"]},
+                       "CallableMapping(mapping, **params) of %s raised %s" % (c["entry"], num["msg"].strip().splitlines()[-1][:200]), case,
+                       observed=num["msg"][-800:], required="values of all five quantities", theorem_or_case="sampling:numeric")
+                continue
+            stats["kwargs_probe_values"] += num.get("compared", 0)
+            stats["numeric_values_compared"] += num.get("compared", 0)
+            if num.get("fails"):
+                f = num["fails"][0]
+                report({"part": "numeric", "call": "CallableMapping(mapping, **params)", "quantity": f["quantity"],
+                        "what": "shape" if "want_shape" in f else "value"},
+                       "C16 fails on the implementation: CallableMapping(mapping, **params) of %s returns a wrong %s" % (c["entry"], f["quantity"]),
+                       dict(case, failing=f), observed=f, required="the values of the mapping built with these parameters",
+                       theorem_or_case="sampling:numeric (parameter substitution of CallableMapping)")
+            check_props(c, num.get("props"), case, {k: frac_of(v) for k, v in c["params"].items()})
+
+    # ---------------- the constructor as a small enum
+    for ci, (c, r) in enumerate(zip(all_cases, results)):
+        if c.get("mode") != "ctor":
+            continue
+        stats["ctor_cases"] += 1
+        want = ctor_expected(c)
+        got = "crash" if (r is None or "crash" in r or "timeout" in r) else r.get("outcome")
+        case = {"part": "ctor", "payload": c}
+        detail = None
+        if got == "TypeError" and want == "ok" and c.get("coord_as") in ("symbols", "mixed", "Tuple"):
+            report({"part": "ctor", "kind": "coordinates-given-as-symbols"},
+                   "C16 fails on the implementation: %s cannot be built with coordinates= given as Symbol objects (%s), which the constructor's own "
+                   "type check admits" % (c["cls"], c["coordinates"]), case, observed=r, required="the mapping with real coordinate symbols of these names",
+                   theorem_or_case="oracle:constructor (coordinates= : str or Symbol)")
+            continue
+        if got != want:
+            detail = "outcome %s, required %s" % (got, want)
+        elif want == "unevaluated" and not (r["jac_none"] and r["metric_none"] and r["expressions_raw"]):
+            detail = "evaluate=False computed stored quantities: %s" % r
+        elif want == "ok":
+            d = ctor_dims(c)
+            m = r["meta"]
+            if d and [m["ldim"], m["pdim"]] != d:
+                detail = "ldim, pdim = %s, required %s" % ([m["ldim"], m["pdim"]], d)
+            names = (c.get("raw") or {}).get("coordinates") or c.get("coordinates")
+            if names and (m["coordinates"] != names or not all(m["coordinates_real"]) or m["coordinates_seq"] != (len(names) > 1)):
+                detail = "coordinates %s (real %s), required %s" % (m["coordinates"], m["coordinates_real"], names)
+        if detail:
+            report({"part": "ctor", "kind": "constructor-enum", "want": want, "got": got},
+                   "C16: Mapping.__new__(%s, %s): %s" % (c["cls"], {k: v for k, v in c.items() if k in ("dim", "raw", "evaluate")}, detail), case,
+                   observed=r if not (r and "crash" in r) else r["crash"][-600:], required=want, found_input=(got != "crash"),
+                   theorem_or_case="oracle:constructor (refusals as an enum: dimension wrappers of length 1, coordinates= types, evaluate=False)")
+        else:
+            stats["ctor_agree"] += 1
 
     if not proof_ok:
         fo = run.failing_obligation()
@@ -848,7 +1408,7 @@ def main(run, replay=None):
 
     # ---------------- evidence
     nfull = stats["param_cases"] + stats["user_cases"]
-    evaluations = 6 * len(entries) + 5 * len(eparts) + sum(len(v) for v in svals.values()) + stats["numeric_values_compared"] + stats["oracle_points"]
+    evaluations = 6 * len(entries) + sum(len(v) for v in eparts.values()) + stats["ctor_cases"] + stats["meta_checked"] + stats["callable_props_checked"] + sum(len(v) for v in svals.values()) + stats["numeric_values_compared"] + stats["oracle_points"]
     for e in entries:
         if entry_nontrivial(e["data"]):
             distinct.add(canon_hash(["cat", e["name"]]))
@@ -870,7 +1430,12 @@ def main(run, replay=None):
         "entries_without_reference_pin": unpinned,
         "timeline": timeline,
         "numeric_only_entries": [],
-        "traces_validated_against_impl": stats["catalogue_entries_proved"] + stats["param_cases_proved"] + stats["user_cases_proved"] + stats["shape_model_agree"],
+        "traces_validated_against_impl": stats["catalogue_entries_proved"] + stats["param_cases_proved"] + stats["user_cases_proved"] + stats["shape_model_agree"]
+        + stats["supplied_cases_proved"] + stats["abstract_cases_proved"] + stats["ctor_agree"],
+        "supplied_matrix_cases": supplied_hist,
+        "constructor_variants": {"dim_as": {k: sum(1 for c in all_cases if c.get("dim_as") == k) for k in ("int", "tuple", "list", "Tuple", "Matrix")},
+                                 "coord_as": {k: sum(1 for c in all_cases if c.get("coord_as") == k) for k in ("list", "tuple", "Tuple", "symbols", "mixed")},
+                                 "surfaces_or_curves": sum(1 for c in all_cases if c.get("want_dims") and c["want_dims"][0] < c["want_dims"][1])},
         "decisions": stats,
         "checker_incomplete_cases": incomplete_list[:20],
         "numeric_part": {"label": "SAMPLING (no theorem covers floating-point evaluation)", "tolerance": "|a-b| <= 1e-9 (1+|b|) kappa(J for the inverse)",
